@@ -48,3 +48,15 @@ Print Assumptions C12_built_root_sound.
 Theorem C12_built_globs_have_nonempty_branches : forall e t r, build e = BuildOk t r -> nonempty_branches t = true.
 Proof. exact built_nonempty_branches. Qed.
 Print Assumptions C12_built_globs_have_nonempty_branches.
+
+From WaxModel Require Import Rule.
+From WaxProofs Require Import DepthAltFacts RootFacts.
+
+(* the second sentence, for every glob that builds and has no repetition: it reports "always" or "never", not "sometimes".  An
+   alternation at the beginning of the expression, at any nesting, has no branch that begins with a root: the rule checker rejects
+   it (RootedSubGlob) through the outer context that nested branches inherit, so the fold over starting tokens answers Never.
+   With repetitions the claim fails: the known class nested_rooting *)
+Theorem C12_built_globs_without_repetitions_are_never_sometimes_rooted : forall e t r,
+  build e = BuildOk t r -> rep_free t = true -> has_root t <> Sometimes.
+Proof. exact built_never_sometimes. Qed.
+Print Assumptions C12_built_globs_without_repetitions_are_never_sometimes_rooted.
